@@ -284,6 +284,11 @@ pub fn run(id: &str, tier: Tier, seed: u64) -> Report {
         if rep.failed() {
             return rep;
         }
+        // ... and one client's own overlapping uploads: none of the acknowledged ones is dropped
+        crate::props::conc::overlap_subrun("C07", &mut rep, tier);
+        if rep.failed() {
+            return rep;
+        }
     }
 
     if id == "C01" || id == "C11" {
@@ -343,7 +348,7 @@ pub fn replay(id: &str, kind: &str, case: &Value, st: &mut Stats) -> CheckResult
             check(id, &hc, st)
         }
         "overlap" if id == "C11" => crate::props::conc::c11_replay(case, st),
-        "overlap" if id == "C01" => crate::props::conc::c01_replay(case, st),
+        "overlap" if id == "C01" || id == "C07" => crate::props::conc::c01_replay(case, st),
         "raw" if id == "C18" => crate::props::http::c18_raw_replay(case, st),
         "two-clients" if id == "C07" => crate::props::conc::two_clients_replay(case, st),
         _ => Err(Fail::Inconclusive(format!("unknown replay kind {kind}"))),
